@@ -138,6 +138,7 @@ class BackgroundFamily:
             'sigma_clip': rng.chance(0.8),
             'unit': rng.chance(0.25), 'fill_value': rng.pick([0.0, -1.5]),
             'int_data': rng.chance(0.15), 'nan': rng.chance(0.3),
+            'f32': rng.chance(0.2),
         }
 
     def make_scene(self, rng, cfg):
@@ -154,6 +155,8 @@ class BackgroundFamily:
         elif cfg['nan']:
             for _ in range(rng.randint(1, 4)):
                 data[rng.randrange(ny), rng.randrange(nx)] = np.nan
+        if cfg.get('f32') and not cfg['int_data']:
+            data = (data + 1000.0).astype(np.float32)    # on a pedestal
         mask = g.random((ny, nx)) < 0.1
         if rng.chance(0.3):
             mask[: ny // 3, : nx // 3] = True     # a fully masked box
@@ -1003,8 +1006,16 @@ class PSFPhotFamily:
                 else:
                     st.buf[...] = req[0]
                 data, mask, error, init = req
+                if mask is not None:
+                    # ... and one bad-pixel mask array for all exposures
+                    if getattr(st, 'maskbuf', None) is None or \
+                            st.maskbuf.shape != mask.shape:
+                        st.maskbuf = mask.copy()
+                    else:
+                        st.maskbuf[...] = mask
+                    mask = st.maskbuf
                 out = call(o, st.buf, mask=None if mask is None
-                           else mask.copy(), error=None if error is None
+                           else mask, error=None if error is None
                            else error.copy(),
                            init_params=None if init is None else init.copy())
                 st.stats.probe('same_buffer_object_refilled')
